@@ -97,7 +97,7 @@ def detect(patch):
                          "what": what, "wall_s": round(time.time() - t0, 1)}
         first = one(ids[0])
         res[first[0]] = first[1]
-        with concurrent.futures.ThreadPoolExecutor(max_workers=8) as ex:
+        with concurrent.futures.ThreadPoolExecutor(max_workers=14) as ex:
             for pid, r in ex.map(one, ids[1:]):
                 res[pid] = r
     finally:
